@@ -6,6 +6,7 @@ import ZenonVerif.Model.Pow
 import ZenonVerif.Model.Proto
 import ZenonVerif.Model.Consensus
 import ZenonVerif.Model.Rewards
+import ZenonVerif.Model.RewardEpoch
 import ZenonVerif.Props.C18
 import ZenonVerif.Props.C14
 /-
@@ -142,8 +143,6 @@ theorem fromNumber_beyond_translation_refines_model (lastHeight number : BitVec 
   unfold Translated.fromNumber_beyond
   simp only [BitVec.lt_def, decide_eq_true_eq]
 
-theorem tdiv_nat (n d : Nat) : Int.tdiv (n : Int) (d : Int) = ((n / d : Nat) : Int) := (Int.ofNat_tdiv n d).symm
-
 theorem getTargetByDifficulty_translation_refines_model (d : BitVec 64) :
     Translated.getTargetByDifficulty d = .ok (Pow.targetBytes d.toNat) := by
   unfold Translated.getTargetByDifficulty Pow.targetBytes Pow.target
@@ -205,9 +204,6 @@ theorem MaxInt64_translation_refines_model (x y : BitVec 64) :
     (Translated.MaxInt64 x y).toInt = max x.toInt y.toInt := by
   unfold Translated.MaxInt64; simp only [decide_eq_true_eq]; split <;> omega
 
-theorem toInt_sub_wrap (a b : BitVec 64) : (a - b).toInt = Rewards.wrap64 (a.toInt - b.toInt) := by
-  rw [BitVec.toInt_sub, Int.bmod_def]; unfold Rewards.wrap64; simp only [two63, two64]; split <;> omega
-
 theorem getWeightedStake_translation_refines_model (revoke start : BitVec 64) (w : Int) (s e : BitVec 64) :
     Translated.getWeightedStake revoke start w s e
       = Rewards.weightedStake start.toInt revoke.toInt w s.toInt e.toInt := by
@@ -219,17 +215,6 @@ theorem getWeightedStake_translation_refines_model (revoke start : BitVec 64) (w
   (repeat' split) <;> simp_all <;> omega
 
 theorem momentumsPage_eq_accountBlocksPage : Translated.momentumsPage = Translated.accountBlocksPage := rfl
-
-theorem ToTime_offsets_translation_pinned (iv tick : BitVec 64) :
-    Translated.ToTime_startOffset iv tick = iv * tick ∧ Translated.ToTime_endOffset iv tick = iv * (tick + 1#64) := ⟨rfl, rfl⟩
-
-theorem rewardHistoryFirstEpoch_translation_pinned (last : BitVec 64) (i c : BitVec 32) :
-    Translated.rewardHistoryFirstEpoch last i c = last - BitVec.setWidth 64 i * BitVec.setWidth 64 c := rfl
-
-theorem toInt_mul_wrap (a b : BitVec 64) : (a * b).toInt = Rewards.mul64 a.toInt b.toInt := by
-  rw [BitVec.toInt_mul, Int.bmod_def]; unfold Rewards.mul64 Rewards.wrap64; simp only [two63, two64]
-  generalize a.toInt * b.toInt = p
-  split <;> omega
 
 theorem getWeightedSentinel_translation_refines_model (reg revoke s e : BitVec 64) :
     Translated.getWeightedSentinel reg revoke s e
@@ -294,7 +279,8 @@ theorem DifficultyToPlasma_translated_le (d : BitVec 64) :
     · rw [if_neg h1]; simp only [Gen.MaxDifficultyForAccountBlock, Gen.MaxPoWPlasmaForAccountBlock, Gen.PoWDifficultyPerPlasma] at h1 ⊢
       omega
 
-/-- the page request of `GetAccountBlocksByPage` / `GetMomentumsByPage` at the machine level (shape of `Rpc.pageRequest`) -/
+/-- the page request of `GetAccountBlocksByPage` / `GetMomentumsByPage` at the machine level (shape of `Rpc.pageRequest`);
+    intermediate step of `accountBlocksPage_translation_refines_model` -/
 def pageSpec (H : BitVec 64) (i c : BitVec 32) : Res (BitVec 64 × BitVec 64) :=
   let start := H - BitVec.setWidth 64 (i + 1#32) * BitVec.setWidth 64 c + 1#64
   let count := BitVec.setWidth 64 c
@@ -303,32 +289,131 @@ def pageSpec (H : BitVec 64) (i c : BitVec 32) : Res (BitVec 64 × BitVec 64) :=
   let count' := if tooMuch.toInt > 0 then count - tooMuch else count
   if count'.toInt < 1 then .exit 0 else .ok (start', count')
 
-theorem accountBlocksPage_translation_pinned_partial (H : BitVec 64) (i c : BitVec 32) :
-    Translated.accountBlocksPage H i c = pageSpec H i c := by
-  unfold Translated.accountBlocksPage pageSpec
-  have h0 : (0#64).toInt = 0 := by decide
-  have h1 : (1#64).toInt = 1 := by decide
-  simp only [h0, h1, decide_eq_true_eq]
-  (repeat' split) <;> simp_all
+/-- embedding of the model's answer (`none` = the empty page is answered directly = first `return` of the fragment) -/
+def pageEmb : Option (Nat × Nat) → Res (BitVec 64 × BitVec 64)
+  | none => .exit 0
+  | some (s, n) => .ok (BitVec.ofNat 64 s, BitVec.ofNat 64 n)
 
-theorem getWeightedStakeAmount_translation_pinned_partial (amount : Int) (t : BitVec 64) :
-    Translated.getWeightedStakeAmount amount t
-      = .ok (((9#64 + BitVec.sdiv t (BitVec.ofNat 64 Gen.StakeTimeUnitSec.toNat)).toInt * amount) / 10) := by
-  unfold Translated.getWeightedStakeAmount
-  simp [Translated.vm_constants_StakeTimeUnitSec_init, bigOfI64, bigDiv, Gen.StakeTimeUnitSec]
+theorem accountBlocksPage_translation_refines_model (H : BitVec 64) (i c : BitVec 32)
+    (hH : H.toNat < two63) (hc : c.toNat ≤ Gen.RpcMaxPageSize) :
+    Translated.accountBlocksPage H i c = pageEmb (Rpc.pageRequest H.toNat i.toNat c.toNat) := by
+  have hpin : Translated.accountBlocksPage H i c = pageSpec H i c := by
+    unfold Translated.accountBlocksPage pageSpec
+    have h0 : (0#64).toInt = 0 := by decide
+    have h1 : (1#64).toInt = 1 := by decide
+    simp only [h0, h1, decide_eq_true_eq]
+    (repeat' split) <;> simp_all
+  rw [hpin]
+  unfold pageSpec Rpc.pageRequest pageEmb
+  simp only [two63, two32, Gen.RpcMaxPageSize] at *
+  have hq : (i.toNat + 1) % 4294967296 < 4294967296 := Nat.mod_lt _ (by omega)
+  have hm : (i.toNat + 1) % 4294967296 * c.toNat ≤ 4294967296 * 1024 := Nat.mul_le_mul (by omega) hc
+  generalize hP : BitVec.setWidth 64 (i + 1#32) * BitVec.setWidth 64 c = P
+  have hPn : P.toNat = (i.toNat + 1) % 4294967296 * c.toNat := by
+    subst hP
+    simp only [BitVec.toNat_mul, BitVec.toNat_setWidth, BitVec.toNat_add, BitVec.toNat_ofNat]
+    have e1 : (i.toNat + 1 % 2 ^ 32) % 2 ^ 32 = (i.toNat + 1) % 4294967296 := by omega
+    have e2 : (i.toNat + 1) % 4294967296 % 2 ^ 64 = (i.toNat + 1) % 4294967296 := by omega
+    have e3 : c.toNat % 2 ^ 64 = c.toNat := by omega
+    rw [e1, e2, e3]; omega
+  generalize hC : BitVec.setWidth 64 c = C
+  have hCn : C.toNat = c.toNat := by subst hC; simp [BitVec.toNat_setWidth]; omega
+  have hcast : (((i.toNat + 1) % 4294967296 : Nat) : Int) * (c.toNat : Int) = ((((i.toNat + 1) % 4294967296) * c.toNat : Nat) : Int) := by
+    simp
+  simp only [hcast]
+  rw [← hPn]
+  clear hcast hC hP
+  have hPb : P.toNat ≤ 4294967296 * 1024 := by omega
+  clear hPn hm hq
+  have hTn : (1#64 - (H - P + 1#64)).toNat = (2 ^ 64 + P.toNat - H.toNat) % 2 ^ 64 := by bv_omega
+  have hT : (1#64 - (H - P + 1#64)).toInt = (P.toNat : Int) - (H.toNat : Int) := by
+    rw [toInt_eq, hTn]; split <;> omega
+  have hS : (H - P + 1#64).toNat = H.toNat - P.toNat + 1 ∨ P.toNat > H.toNat := by bv_omega
+  rw [hT]
+  by_cases h : (P.toNat : Int) - (H.toNat : Int) > 0
+  · have h' : 1 - ((H.toNat : Int) - (P.toNat : Int) + 1) > 0 := by omega
+    simp only [h, h', if_true]
+    have hKn : (C - (1#64 - (H - P + 1#64))).toNat = (2 ^ 64 + c.toNat - (P.toNat - H.toNat)) % 2 ^ 64 := by bv_omega
+    have hK : (C - (1#64 - (H - P + 1#64))).toInt = (c.toNat : Int) - ((P.toNat : Int) - (H.toNat : Int)) := by
+      rw [toInt_eq, hKn]; split <;> omega
+    rw [hK]
+    by_cases h2 : (c.toNat : Int) - ((P.toNat : Int) - (H.toNat : Int)) < 1
+    · have h2' : (c.toNat : Int) - (1 - ((H.toNat : Int) - (P.toNat : Int) + 1)) < 1 := by omega
+      simp only [h2, h2', if_true]
+    · have h2' : ¬ (c.toNat : Int) - (1 - ((H.toNat : Int) - (P.toNat : Int) + 1)) < 1 := by omega
+      simp only [h2, h2', if_false]
+      congr 2
+      apply BitVec.eq_of_toNat_eq; simp only [BitVec.toNat_ofNat]; omega
+  · have h' : ¬ 1 - ((H.toNat : Int) - (P.toNat : Int) + 1) > 0 := by omega
+    simp only [h, h', if_false]
+    have hK : C.toInt = (c.toNat : Int) := by rw [toInt_eq]; split <;> omega
+    rw [hK]
+    by_cases h2 : (c.toNat : Int) < 1
+    · simp only [h2, if_true]
+    · simp only [h2, if_false]
+      congr 2
+      · apply BitVec.eq_of_toNat_eq; simp only [BitVec.toNat_ofNat]; bv_omega
+      · apply BitVec.eq_of_toNat_eq; simp only [BitVec.toNat_ofNat]; bv_omega
+
+example : ∃ (H : BitVec 64) (c : BitVec 32), H.toNat < two63 ∧ c.toNat ≤ Gen.RpcMaxPageSize ∧
+    Translated.accountBlocksPage H 2#32 c = .ok (71#64, 10#64) := ⟨100#64, 10#32, by decide⟩
+
+/-- the page-size guard that precedes the fragment (`pageSize > RpcMaxPageSize` → error) is needed for the equality with
+    the unbounded-integer model: for huge sizes the int64 product wraps and the code hands on a positive range where the
+    model answers the empty page -/
+theorem accountBlocksPage_needs_page_size_guard :
+    Translated.accountBlocksPage 0#64 4294967294#32 4294967295#32
+      ≠ pageEmb (Rpc.pageRequest 0 4294967294 4294967295) := by decide
+
+theorem momentumsPage_translation_refines_model (H : BitVec 64) (i c : BitVec 32)
+    (hH : H.toNat < two63) (hc : c.toNat ≤ Gen.RpcMaxPageSize) :
+    Translated.momentumsPage H i c = pageEmb (Rpc.pageRequest H.toNat i.toNat c.toNat) := by
+  rw [momentumsPage_eq_accountBlocksPage]; exact accountBlocksPage_translation_refines_model H i c hH hc
+
+/-- `getWeightedStakeAmount` = the hand model `RewardEpoch.stakeWeightedAmount` at the live `StakeTimeUnitSec`
+    (int64 quotient and sum with wrap-around, big.Int product, `Div` by 10) -/
+theorem getWeightedStakeAmount_translation_refines_model (amount : Nat) (t : BitVec 64) :
+    Translated.getWeightedStakeAmount (amount : Int) t
+      = (match RewardEpoch.stakeWeightedAmount Gen.StakeTimeUnitSec amount t.toInt with
+         | none => .panic | some v => .ok v) := by
+  unfold Translated.getWeightedStakeAmount RewardEpoch.stakeWeightedAmount Rewards.div64
+  have hU : (Translated.vm_constants_StakeTimeUnitSec_init).toInt = Gen.StakeTimeUnitSec := by decide
+  have h9 : (9#64).toInt = 9 := by decide
+  simp only [bigOfI64, bigDiv, toInt_add_wrap, toInt_sdiv_wrap, hU, h9]
+  simp [Translated.vm_constants_StakeTimeUnitSec_init, Gen.StakeTimeUnitSec]
   rfl
 
-/-- `TickMultiplier`, after the four instants are read: the multiplier is reported only when the bigger duration is a
-    whole multiple of the smaller one; a zero callee duration panics (integer divide by zero) -/
-theorem TickMultiplier_tail_translation_refines_spec (cE cS bE bS : BitVec 64) :
-    Translated.TickMultiplier_tail cE cS bE bS =
-      (let c := cE - cS; let b := bE - bS
-       if c.toInt > b.toInt then .ok (0#64, some "errorf")
-       else if c = 0#64 then .panic
-       else if BitVec.srem b c ≠ 0#64 then .ok (0#64, some "errorf")
-       else .ok (BitVec.sdiv b c, none)) := by
-  unfold Translated.TickMultiplier_tail
-  simp only [decide_eq_true_eq, beq_iff_eq, bne_iff_ne]
-  (repeat' split) <;> simp_all
+/-- the two `interval * time.Duration(tick)` products of `ticker.ToTime` added to the start instant = `Ticker.toTime` -/
+theorem ToTime_offsets_translation_refines_model (iv tick : BitVec 64) (start : Int) (h1 : tick.toNat + 1 < two64) :
+    (start + (Translated.ToTime_startOffset iv tick).toInt, start + (Translated.ToTime_endOffset iv tick).toInt)
+      = Consensus.Ticker.toTime ⟨start, iv.toInt⟩ tick.toNat := by
+  unfold Translated.ToTime_startOffset Translated.ToTime_endOffset Consensus.Ticker.toTime
+  have e : (tick + 1#64).toNat = tick.toNat + 1 := by simp only [two64] at h1; bv_omega
+  simp only [toInt_mul_wrap, consensus_wrap64_eq, toInt64_toNat, Rewards.mul64, ← e]
 
+theorem rewardHistoryFirstEpoch_translation_refines_model (last : BitVec 64) (i c : BitVec 32) :
+    (Translated.rewardHistoryFirstEpoch last i c).toInt = Rewards.rewardHistoryFirstEpoch last.toInt i.toNat c.toNat := by
+  unfold Translated.rewardHistoryFirstEpoch Rewards.rewardHistoryFirstEpoch
+  simp only [toInt_sub_wrap, toInt_mul_wrap, toInt_zext32]
+
+/-- `TickMultiplier`, after the four instants are read = `Consensus.tickMultiplier` on the two wrapped differences:
+    the multiplier is reported only when the bigger duration is a whole multiple of the smaller one; a zero callee
+    duration panics (integer divide by zero) -/
+theorem TickMultiplier_tail_translation_refines_model (cE cS bE bS : BitVec 64) :
+    Translated.TickMultiplier_tail cE cS bE bS =
+      (match Consensus.tickMultiplier (Consensus.wrap64 (cE.toInt - cS.toInt)) (Consensus.wrap64 (bE.toInt - bS.toInt)) with
+       | none => .panic
+       | some none => .ok (0#64, some "errorf")
+       | some (some m) => .ok (BitVec.ofInt 64 m, none)) := by
+  unfold Translated.TickMultiplier_tail Consensus.tickMultiplier
+  simp only [consensus_wrap64_eq, ← toInt_sub_wrap]
+  generalize cE - cS = c
+  generalize bE - bS = b
+  have h0 : (c == 0#64) = true ↔ c.toInt = 0 := by
+    simp only [beq_iff_eq, ← BitVec.toInt_inj]; rfl
+  have h1 : (BitVec.srem b c != 0#64) = true ↔ Int.tmod b.toInt c.toInt ≠ 0 := by
+    simp only [bne_iff_ne, ne_eq, ← BitVec.toInt_inj, BitVec.toInt_srem]; rfl
+  simp only [h0, h1, decide_eq_true_eq, ← toInt_sdiv_wrap]
+  (repeat' split) <;> simp_all
+  rename_i heq; rw [← heq, BitVec.ofInt_toInt]
 end ZV.Translated
